@@ -109,7 +109,7 @@ def support_targets():
             line = line.strip()
             if line.startswith('theories/Model/') and line.endswith('.v'):
                 tg.append(line[:-2] + '.vo')
-    return tg + ['theories/Proofs/AllocProofs.vo']
+    return tg + ['theories/Proofs/AllocProofs.vo', 'theories/Proofs/WfCheck.vo']
 
 
 def coqc_file(path, timeout=600):
